@@ -159,52 +159,16 @@ Fixpoint runS (n : nat) (s : sstate) (ops : list op) : list obs :=
   end.
 
 (* ---- guard -------------------------------------------------------------------------------------
-   (G1) a definition of `name` is inside the guard when the name is new, or the Lambda captured by the
-        name's creator is still the registered one (it is the registered one that later definitions patch),
-        or the definition is the one the name already has.  Outside: known finding C08-stale-lambda.
+   (G1, removed) a redefinition used to be inside the guard only while the Lambda captured by the name's creator
+        was the registered one; since repo_fixes/C08-3 the creator always hands out the registered Lambda and
+        every definition is inside the guard.
    (G2) an outcome is compared with S only when S does not say undefined-function: compiled code calls the
         placeholder, which evaluates the arguments first (known finding C08-undefined-args-first). *)
-Fixpoint sexp_eqb (x y : sexp) {struct x} : bool :=
-  match x, y with
-  | SInt z, SInt z' => Z.eqb z z'
-  | SSym s, SSym s' => String.eqb s s'
-  | SGlob s, SGlob s' => String.eqb s s'
-  | SList i xs, SList j ys =>
-      Nat.eqb i j && (fix eql (xs ys : list sexp) {struct xs} : bool :=
-                        match xs, ys with
-                        | [], [] => true
-                        | a :: xs', b :: ys' => sexp_eqb a b && eql xs' ys'
-                        | _, _ => false
-                        end) xs ys
-  | _, _ => false
-  end.
-Fixpoint sexps_eqb (xs ys : list sexp) : bool :=
-  match xs, ys with
-  | [], [] => true
-  | a :: xs', b :: ys' => sexp_eqb a b && sexps_eqb xs' ys'
-  | _, _ => false
-  end.
-Fixpoint strs_eqb (xs ys : list string) : bool :=
-  match xs, ys with
-  | [], [] => true
-  | a :: xs', b :: ys' => String.eqb a b && strs_eqb xs' ys'
-  | _, _ => false
-  end.
-Definition lam_eqb_def (l : lam) (name : string) (ps : list string) (body : list sexp) : bool :=
-  negb (l_place l) && String.eqb (l_name l) name && strs_eqb (l_params l) ps && sexps_eqb (l_forms l) body.
-Definition g_defun (st : state) (name : string) (ps : list string) (body : list sexp) : bool :=
-  match slookup name (funcs st) with
-  | None => true
-  | Some a =>
-      (match slookup name (lambdas st) with Some c => Nat.eqb a c | None => false end)
-      || (match nth_error (heap st) a with Some l => lam_eqb_def l name ps body | None => false end)
-  end.
 (* S's verdict is binding when it is a value or a condition other than undefined-function; when S runs out
    of fuel it says nothing *)
 Definition comparable (r : res) : bool := match r with Err EUndefined => false | OutOfFuel => false | _ => true end.
 Definition is_val (r : res) : bool := match r with Val _ => true | _ => false end.
 
-(* (G1) followed along the model run *)
 (* (G3) every bare symbol among the body forms is a parameter or names a package variable that exists when
    the definition is evaluated (so Lambda.Compile leaves it a symbol) *)
 Definition g_body (gv : env) (ps : list string) (body : list sexp) : bool :=
@@ -215,7 +179,7 @@ Fixpoint guard_forms (n : nat) (st : state) (gv : env) (fs : list tform) : bool 
   | TQuote _ :: r => guard_forms n st gv r
   | TForm e :: r =>
       match parse_defun e with
-      | Some (nm, ps, body) => g_body gv ps body && g_defun st nm ps body && guard_forms n (defunM st nm ps body) gv r
+      | Some (nm, ps, body) => g_body gv ps body && guard_forms n (defunM st nm ps body) gv r
       | None =>
           match parse_gdef e with
           | Some (always, nm, z) => guard_forms n st (gdef gv always nm z) r
@@ -228,7 +192,7 @@ Fixpoint guard_defs (st : state) (gv : env) (fs : list tform) : bool :=
   | [] => true
   | TForm e :: r =>
       match parse_defun e with
-      | Some (nm, ps, body) => g_body gv ps body && g_defun st nm ps body && guard_defs (defunM st nm ps body) gv r
+      | Some (nm, ps, body) => g_body gv ps body && guard_defs (defunM st nm ps body) gv r
       | None =>
           match parse_gdef e with
           | Some (always, nm, z) => guard_defs st (gdef gv always nm z) r
